@@ -416,7 +416,7 @@ func writeComputedFieldExpression(w *formatting.IndentedWriter, expression dsl.E
 				self.Visit(t.Target)
 				w.WriteString(")")
 			case *dsl.TypePattern, *dsl.DiscardPattern:
-				self.Visit(t.Target)
+				self.Visit(t.Cases[0].Expression)
 			default:
 				panic(fmt.Sprintf("Unexpected pattern type %T", t.Cases[0].Pattern))
 			}
